@@ -143,9 +143,14 @@ CHECKS = {
        "used at the table rate of the data rate actually used, RX2 on the negotiated-or-default frequency/data rate, both by value; delays: RX1 = negotiated delay, RX2 = RX1 + 1 s, "
        "join 5 s / 6 s; Class C listens on the RX2 parameters; fixed plans pair uplink channel n with downlink channel n mod 8. Tied to the code by MAC histories over every region x "
        "uplink data rate x RX1 offset 0..7 x RX2 overrides x RxDelay 0..15 x DlChannelReq, joins over the fixed-plan channels, Class C; an oracle written from RP002 judges every TX's windows; "
-       "both front-ends' Timer::at / TimeoutRequest arguments are checked against delay + end-of-TX - lead for every RxDelay.",
-  note=COMMON_NOTE + "The radio's own symbol timeout / preamble detection is outside (C17). Front-end timing arithmetic is checked on the implementation with a scripted timer, not proved.",
-  tech="machine-checked proof in Coq (regional window functions vs RP002 rules, total over all inputs) + translator-regenerated region tables + MAC-history correspondence + RP002 oracle + front-end timer oracle", ref="6 C10"),
+       "both front-ends' Timer::at / TimeoutRequest arguments are checked against delay + end-of-TX - lead for every RxDelay. "
+       "The asynchronous front-end's whole schedule is proved (C10_async_class_a_window_schedule / _class_c_): on a radio that accepts every call and hears nothing, after ANY successful "
+       "uplink (every MAC state, payload, lead time <= 100 ms) the device makes exactly the calls tx, timer.reset, [low power | Class C: continuous RX on the RX2 parameters], "
+       "timer.at(RxDelay1 + 100 - lead), setup_rx(the RX1 window computed when the uplink was built), rx_single, then the same one second later with the RX2 window, and nothing else; "
+       "both front-end models (Model/AsyncDev.v, Model/NbDev.v) are tied to the code by the front-end correspondence stages of this check.",
+  note=COMMON_NOTE + "The radio's own symbol timeout / preamble detection is outside (C17). The schedule theorem is stated for the quiet radio (no fault, nothing heard); other scripts are covered by "
+       "the correspondence and the timing oracle only. The nb_device timing arithmetic (i32/u32 casts) is modelled and diffed, its schedule not stated as a theorem. Timer resolution/jitter is the embedded timer's.",
+  tech="machine-checked proof in Coq (regional window functions vs RP002 rules, total over all inputs; async front-end call schedule for every uplink) + translator-regenerated region tables + MAC-history and front-end correspondence + RP002 oracle + front-end timer oracle", ref="6 C10"),
  "C11": dict(
   text="Coq theorems (Props/C11.v) for arbitrary cipher/MAC functions with 16-byte outputs: join_otaa emits exactly the 23-byte JoinRequest of the spec (identifiers, DevNonce = draw mod 2^16, "
        "MIC under the root key) and remembers that DevNonce; a frame is acted on iff it is an authentic JoinAccept (size 17/33, MHDR, CMAC under the root key over the AES-encrypted body: "
